@@ -15,9 +15,11 @@ binary32 evaluation for ALL inputs (2^24, 2^30, 2^48 triples — no enumeration)
 Core only.
 -/
 import DdsModel.Proofs.F32ErrOps
+import DdsModel.Proofs.ConvF32Thr
 import DdsModel.Conv
+import DdsModel.ConvSpecYuv
 namespace Dds.YuvErr
-open Dds Dds.CF32 Dds.Conv Dds.Spec Dds.F32Err
+open Dds Dds.CF32 Dds.Conv Dds.Spec Dds.F32Err Dds.F32Mono Dds.F32Thr
 
 /-! ### products of bounded quantities -/
 
@@ -305,4 +307,385 @@ theorem f32_err16 (y u v : Nat) (hy : y < 65536) (hu : u < 65536) (hv : v < 6553
   f32_err 16 65536 4096 32768 k65535 y u v (65537 / 4294967296) (1 / 65535) (1 / 281470681743360) (by decide) (by decide) (by decide)
     (by decide) hy hu hv k65535_val.1 k65535_val.2 (by decide +kernel) (by decide +kernel) (by decide +kernel)
     (by decide +kernel) (by decide +kernel) (by decide +kernel) (by decide +kernel) (by decide +kernel)
+/-! ### the integer outputs -/
+
+theorem pval_succ (b : Nat) (h : b + 1 ≤ 0x3F800000) : pval (b + 1) ≤ pval b + 2 ^ 125 := by
+  have hp := two_pow_pos 125
+  by_cases h1 : b + 1 < 8388608
+  · rw [pval_small _ h1, pval_small b (by omega)]; omega
+  · rw [pval_big _ h1]
+    by_cases h0 : b < 8388608
+    · have hb : b = 8388607 := by omega
+      subst hb
+      rw [pval_small _ h0]
+      have : (8388607 + 1) / 8388608 - 1 = 0 := by decide
+      rw [this]; omega
+    · rw [pval_big b h0]
+      have hE : b / 8388608 ≤ 126 := by omega
+      by_cases hs : (b + 1) / 8388608 = b / 8388608
+      · have hm : (b + 1) % 8388608 = b % 8388608 + 1 := by omega
+        rw [hs, hm]
+        have : 2 ^ (b / 8388608 - 1) ≤ 2 ^ 125 := pow_mono (by omega)
+        generalize 2 ^ (b / 8388608 - 1) = P at *
+        generalize b % 8388608 = f at *
+        have : (f + 1 + 8388608) * P = (f + 8388608) * P + P := by
+          rw [Nat.add_right_comm, Nat.add_mul, Nat.one_mul]
+        omega
+      · have hd : (b + 1) / 8388608 = b / 8388608 + 1 := by omega
+        have hm : (b + 1) % 8388608 = 0 := by omega
+        have hm' : b % 8388608 = 8388607 := by omega
+        have hge : 1 ≤ b / 8388608 := by omega
+        rw [hd, hm, hm']
+        have e : b / 8388608 + 1 - 1 = (b / 8388608 - 1) + 1 := by omega
+        rw [e, Nat.pow_succ]
+        have : 2 ^ (b / 8388608 - 1) ≤ 2 ^ 125 := pow_mono (by omega)
+        generalize 2 ^ (b / 8388608 - 1) = P at *
+        omega
+
+theorem toRat_succ (b : Nat) (h : b + 1 ≤ 0x3F800000) : toRat (b + 1) ≤ toRat b + 1 / 16777216 := by
+  rw [toRat_natDiv b (by omega), toRat_natDiv (b + 1) (by omega)]
+  have e : (1 : Rat) / 16777216 = ((2 ^ 125 : Nat) : Rat) / ((2 ^ 149 : Nat) : Rat) := by decide +kernel
+  have hD : (0 : Rat) < ((2 ^ 149 : Nat) : Rat) := Rat.natCast_pos.mpr (two_pow_pos 149)
+  rw [e, Rat.div_def, Rat.div_def, Rat.div_def, ← Rat.add_mul, ← Rat.natCast_add]
+  exact Rat.mul_le_mul_of_nonneg_right (Rat.natCast_le_natCast.mpr (pval_succ b h)) (Rat.le_of_lt (Rat.inv_pos.mpr hD))
+
+theorem toNatSat_le (x mx : Nat) : toNatSat x mx ≤ mx := by
+  unfold toNatSat
+  simp only [force_eq]
+  split
+  · exact Nat.zero_le _
+  · split
+    · exact Nat.zero_le _
+    · split
+      · exact Nat.le_refl _
+      · generalize (if expo x ≥ 0 then mant x <<< (expo x).toNat else mant x >>> (-expo x).toNat) = v
+        split <;> omega
+
+theorem chan_unit (b : Nat) (fb : FinP b) (hpat : b ≤ one ∨ b = signBit) : 0 ≤ toRat b ∧ toRat b ≤ 1 := by
+  rcases hpat with h | h
+  · have h1 := toRat_mono b one h (by decide)
+    rw [toRat_one] at h1
+    exact ⟨toRat_nonneg_of_lt b (by unfold one at h; omega), h1⟩
+  · subst h; rw [toRat_signBit]; exact ⟨Rat.le_refl, by decide⟩
+
+/-- COMPOSITION WITH `fp::n8` / `fp::n16`: a float channel within `eps` of `q`, `eps + 2^-24 ≤ τ`, gives an admissible
+code.  `hall`/`hdev` are the all-patterns theorems of `Proofs/ConvF32Thr.lean` (`fpn8_all`/`fpn8_dev`, …). -/
+theorem fpn_adm (mx : Nat) (hmx : 0 < mx) (code b : Nat) (Dev : Prop) [Decidable Dev]
+    (hall : (code : Int) = specCode mx b + (if Dev then 1 else 0))
+    (hdev : Dev → b + 1 < 0x7F800000 ∧ 1 ≤ code ∧ toRat b < ((2 * code - 1 : Nat) : Rat) / ((2 * mx : Nat) : Rat) ∧
+        ((2 * code - 1 : Nat) : Rat) / ((2 * mx : Nat) : Rat) ≤ toRat (b + 1))
+    (hle : code ≤ mx)
+    (q eps : Rat) (h : ChanOk b q eps) (he : eps + 1 / 16777216 ≤ 1 / 1044480) :
+    admissible mx q code = true := by
+  obtain ⟨fb, hpat, hn⟩ := h
+  obtain ⟨x0, x1⟩ := chan_unit b fb hpat
+  have hn' : Near (toRat b) (clamp01 q) eps := by
+    have := clamp01_near _ _ _ hn
+    rwa [clamp01_of_mem _ x0 x1] at this
+  obtain ⟨a1, a2, _, _, _⟩ := finP_flags b fb
+  have hspec : specCode mx b = ((mx : Rat) * toRat b + 1 / 2).floor := by
+    unfold specCode toCode nearest
+    rw [a1, a2, clamp01_of_mem _ x0 x1]
+    simp
+  have hm : (0 : Rat) < (mx : Rat) := Rat.natCast_pos.mpr hmx
+  have f1 := Rat.floor_le ((mx : Rat) * toRat b + 1 / 2)
+  have f2 := Rat.lt_floor_add_one ((mx : Rat) * toRat b + 1 / 2)
+  rw [Rat.intCast_add, Rat.intCast_one] at f2
+  rw [← hspec] at f1 f2
+  have hcm : (code : Rat) / (mx : Rat) * (mx : Rat) = (code : Rat) := Rat.div_mul_cancel (Rat.ne_of_gt hm)
+  have hhm : 1 / (2 * (mx : Rat)) * (mx : Rat) = 1 / 2 := by
+    have : (mx : Rat) ≠ 0 := Rat.ne_of_gt hm
+    grind
+  have hhpos : 0 < 1 / (2 * (mx : Rat)) := by
+    rw [Rat.div_def, Rat.one_mul]; exact Rat.inv_pos.mpr (Rat.mul_pos (by decide) hm)
+  unfold admissible
+  apply decide_eq_true
+  unfold Near at hn'
+  obtain ⟨n1, n2⟩ := hn'
+  generalize clamp01 q = Q at *
+  by_cases hD : Dev
+  · obtain ⟨d1, d2, d3, d4⟩ := hdev hD
+    have hcm1 : (code : Rat) / (mx : Rat) ≤ 1 := by
+      apply Rat.le_of_mul_le_mul_right _ hm
+      rw [hcm, Rat.one_mul]; exact Rat.natCast_le_natCast.mpr hle
+    have ht := tie_half code mx d2 hmx
+    have hb1 : b + 1 ≤ 0x3F800000 := by
+      rcases hpat with hp | hp
+      · unfold one at hp
+        by_cases hone : b = 0x3F800000
+        · exfalso
+          rw [hone] at d3
+          have : toRat 0x3F800000 = 1 := toRat_one
+          rw [this] at d3
+          generalize ((2 * code - 1 : Nat) : Rat) / ((2 * mx : Nat) : Rat) = T at *
+          generalize (code : Rat) / (mx : Rat) = cm at *
+          grind
+        · omega
+      · exfalso; rw [hp] at d1; unfold signBit at d1; omega
+    have hs := toRat_succ b hb1
+    generalize ((2 * code - 1 : Nat) : Rat) / ((2 * mx : Nat) : Rat) = T at *
+    generalize (code : Rat) / (mx : Rat) = cm at *
+    generalize 1 / (2 * (mx : Rat)) = hh at *
+    generalize toRat (b + 1) = x' at *
+    generalize toRat b = x at *
+    constructor <;> grind
+  · rw [if_neg hD, Int.add_zero] at hall
+    have hc : (code : Rat) = ((specCode mx b : Int) : Rat) := by rw [← hall, Rat.intCast_natCast]
+    rw [← hc] at f1 f2
+    generalize toRat b = x at *
+    have g1 : (code : Rat) / (mx : Rat) - x ≤ 1 / (2 * (mx : Rat)) := by
+      apply Rat.le_of_mul_le_mul_right _ hm
+      rw [Rat.sub_eq_add_neg, Rat.add_mul, hcm, hhm, Rat.neg_mul]
+      grind
+    have g2 : -(1 / (2 * (mx : Rat))) ≤ (code : Rat) / (mx : Rat) - x := by
+      apply Rat.le_of_mul_le_mul_right _ hm
+      rw [Rat.sub_eq_add_neg, Rat.add_mul, hcm, Rat.neg_mul, hhm, Rat.neg_mul]
+      grind
+    generalize (code : Rat) / (mx : Rat) = cm at *
+    generalize 1 / (2 * (mx : Rat)) = hh at *
+    constructor <;> grind
+
+theorem fpn8_adm (b : Nat) (q eps : Rat) (h : ChanOk b q eps) (he : eps + 1 / 16777216 ≤ 1 / 1044480) :
+    admissible 255 q (fpn8 b) = true :=
+  fpn_adm 255 (by decide) (fpn8 b) b (b ∈ fpN8Dev) (fpn8_all b (by have := h.1.1; omega))
+    (fun hm => by
+      obtain ⟨d1, _, d3, d4, d5, _⟩ := fpn8_dev b hm
+      exact ⟨d1, d3, d4, d5⟩)
+    (toNatSat_le _ _) q eps h he
+
+theorem fpn16_adm (b : Nat) (q eps : Rat) (h : ChanOk b q eps) (he : eps + 1 / 16777216 ≤ 1 / 1044480) :
+    admissible 65535 q (fpn16 b) = true :=
+  fpn_adm 65535 (by decide) (fpn16 b) b (b ∈ fpN16Dev) (fpn16_all b (by have := h.1.1; omega))
+    (fun hm => by
+      obtain ⟨d1, _, d3, d4, d5, _⟩ := fpn16_dev b hm
+      exact ⟨d1, d3, d4, d5⟩)
+    (toNatSat_le _ _) q eps h he
+
+theorem half_val : FinP half ∧ toRat half = 1 / 2 := by decide +kernel
+
+/-- the direct path of `yuv8::n8`: `(sum + 0.5) as u8` with `sum ≈ S` (±Es), `|S| ≤ 1000`, `Es + 2^-15 ≤ 2^-12` -/
+theorem n8_direct (s : Nat) (fs : FinP s) (S Es : Rat) (hs : Near (toRat s) S Es) (hS1 : -1000 ≤ S) (hS2 : S ≤ 1000)
+    (hE : Es + 1024 / 33554432 ≤ 1 / 4096) :
+    admissible 255 (S * (1 / 255)) (toNatSat (fadd s half) 255) = true := by
+  obtain ⟨fh, vh⟩ := half_val
+  have k1024 : ((1024 : Nat) : Rat) = 1024 := rfl
+  unfold Near at hs
+  obtain ⟨s1, s2⟩ := hs
+  have hE0 : 0 ≤ Es := by grind
+  obtain ⟨ft, nt⟩ := fadd_ulp s half fs fh 10 1024 (by decide) (by decide)
+    (by rw [k1024, vh]; grind) (by rw [k1024, vh]; grind)
+  rw [k1024, vh] at nt
+  unfold Near at nt
+  obtain ⟨t1, t2⟩ := nt
+  unfold admissible
+  apply decide_eq_true
+  have k255 : ((255 : Nat) : Rat) = 255 := rfl
+  rw [k255]
+  generalize toRat s = sv at *
+  rcases toNatSat_floor (fadd s half) 255 ft with ⟨hc, hle⟩ | ⟨n, hc, hn1, hn2⟩
+  · rw [hc]
+    have : S * (1 / 255) ≤ 0 := by grind
+    rw [clamp01_of_le _ this]
+    have z : ((0 : Nat) : Rat) = 0 := rfl
+    rw [z]
+    constructor <;> grind
+  · rw [hc]
+    generalize toRat (fadd s half) = tv at *
+    by_cases hn : n ≤ 255
+    · rw [Nat.min_eq_right hn]
+      have hn' : (n : Rat) ≤ 255 := by
+        have := Rat.natCast_le_natCast.mpr hn
+        rwa [k255] at this
+      have hn0 : (0 : Rat) ≤ (n : Rat) := Rat.natCast_nonneg
+      generalize (n : Rat) = nn at *
+      unfold clamp01
+      constructor <;> grind
+    · rw [Nat.min_eq_left (by omega)]
+      have hn' : (256 : Rat) ≤ (n : Rat) := by
+        have := Rat.natCast_le_natCast.mpr (show 256 ≤ n by omega)
+        have k256 : ((256 : Nat) : Rat) = 256 := rfl
+        rwa [k256] at this
+      have : 1 ≤ S * (1 / 255) := by grind
+      rw [clamp01_of_ge _ this, k255]
+      constructor <;> grind
+/-! ### assembling the three channels -/
+
+theorem div_eq_mul_one_div (x m : Rat) : x / m = x * (1 / m) := by
+  rw [Rat.div_def, Rat.div_def, Rat.one_mul]
+
+theorem yuvAll_intro (P : Rat → Nat → Bool) (q : Rat × Rat × Rat) (r g b : Nat)
+    (h1 : P q.1 r = true) (h2 : P q.2.1 g = true) (h3 : P q.2.2 b = true) : yuvAll P q [r, g, b] = true := by
+  unfold yuvAll; simp only [h1, h2, h3, Bool.and_self]
+
+theorem finP_expField (b : Nat) (h : FinP b) : (expField b != 255) = true := by
+  obtain ⟨h1, h2⟩ := h
+  rw [ConvFast.expField_eq]
+  simp only [bne_iff_ne, ne_eq]
+  omega
+
+/-- a channel within `eps ≤ eps'` of a value in `[0, 1]`… as the Boolean predicate -/
+theorem nearF32_of (b : Nat) (q eps eps' : Rat) (h : ChanOk b q eps) (he : eps ≤ eps') : nearF32 eps' q b = true := by
+  obtain ⟨fb, _, n1, n2⟩ := h
+  unfold nearF32
+  rw [finP_expField b fb, Bool.true_and]
+  apply decide_eq_true
+  constructor <;> grind
+
+theorem clamp01_idem (q : Rat) : clamp01 (clamp01 q) = clamp01 q := by
+  unfold clamp01; grind
+
+theorem admissibleF32_of (b : Nat) (q : Rat) (h : ChanOk b (clamp01 q) (10 / 16777216)) :
+    admissibleF32 (clamp01 q) b = true := by
+  unfold admissibleF32
+  rw [clamp01_idem]
+  exact nearF32_of b _ _ _ h (by decide +kernel)
+
+theorem admissible_clamp (mx : Nat) (q : Rat) (c : Nat) : admissible mx (clamp01 q) c = admissible mx q c := by
+  unfold admissible; rw [clamp01_idem]
+
+theorem tol_ok : (10 : Rat) / 16777216 + 1 / 16777216 ≤ 1 / 1044480 := by decide +kernel
+
+/-! ### yuv8 -/
+
+theorem yuvF32_8 (y u v : Nat) : yuvF32 8 y u v =
+    [fclamp (fmul (yuvSums 16 128 y u v).1 k255) 0 one, fclamp (fmul (yuvSums 16 128 y u v).2.1 k255) 0 one,
+     fclamp (fmul (yuvSums 16 128 y u v).2.2 k255) 0 one] := rfl
+
+theorem spec_yuv8 (y u v : Nat) : Spec.yuv 8 y u v =
+    (clamp01 (idealR (((y : Int) - (16 : Nat) : Int) : Rat) (((v : Int) - (128 : Nat) : Int) : Rat) * (1 / 255)),
+     clamp01 (idealG (((y : Int) - (16 : Nat) : Int) : Rat) (((u : Int) - (128 : Nat) : Int) : Rat) (((v : Int) - (128 : Nat) : Int) : Rat) * (1 / 255)),
+     clamp01 (idealB (((y : Int) - (16 : Nat) : Int) : Rat) (((u : Int) - (128 : Nat) : Int) : Rat) * (1 / 255))) := by
+  rw [← div_eq_mul_one_div, ← div_eq_mul_one_div, ← div_eq_mul_one_div]; rfl
+
+/-- `yuv8::f32`, ALL inputs: every channel is finite and within `10·2^-24` of the ideal value (hence inside the
+oracle's tolerance `τ + 2^-24`) -/
+theorem yuv8_f32_ok (y u v : Nat) (hy : y < 256) (hu : u < 256) (hv : v < 256) :
+    yuvAll (nearF32 (10 / 16777216)) (Spec.yuv 8 y u v) (yuvTo 8 2 y u v) = true ∧
+    yuvAll admissibleF32 (Spec.yuv 8 y u v) (yuvTo 8 2 y u v) = true := by
+  obtain ⟨h1, h2, h3⟩ := f32_err8 y u v hy hu hv
+  have e : yuvTo 8 2 y u v = yuvF32 8 y u v := rfl
+  rw [e, yuvF32_8, spec_yuv8]
+  exact ⟨yuvAll_intro _ _ _ _ _ (nearF32_of _ _ _ _ h1 Rat.le_refl) (nearF32_of _ _ _ _ h2 Rat.le_refl)
+    (nearF32_of _ _ _ _ h3 Rat.le_refl),
+    yuvAll_intro _ _ _ _ _ (admissibleF32_of _ _ h1) (admissibleF32_of _ _ h2) (admissibleF32_of _ _ h3)⟩
+
+/-- `yuv8::n16` = `f32` then `fp::n16`, ALL inputs: every code is admissible -/
+theorem yuv8_n16_ok (y u v : Nat) (hy : y < 256) (hu : u < 256) (hv : v < 256) :
+    yuvAll (admissible 65535) (Spec.yuv 8 y u v) (yuvTo 8 1 y u v) = true := by
+  obtain ⟨h1, h2, h3⟩ := f32_err8 y u v hy hu hv
+  have e : yuvTo 8 1 y u v = (yuvF32 8 y u v).map fpn16 := rfl
+  rw [e, yuvF32_8, spec_yuv8]
+  exact yuvAll_intro _ _ _ _ _ (fpn16_adm _ _ _ h1 tol_ok) (fpn16_adm _ _ _ h2 tol_ok) (fpn16_adm _ _ _ h3 tol_ok)
+
+set_option maxHeartbeats 1000000 in
+/-- `yuv8::n8` (direct `(sum + 0.5) as u8`), ALL 2^24 inputs: every code is admissible -/
+theorem yuv8_n8_ok (y u v : Nat) (hy : y < 256) (hu : u < 256) (hv : v < 256) :
+    yuvAll (admissible 255) (Spec.yuv 8 y u v) (yuvTo 8 0 y u v) = true := by
+  obtain ⟨fr, fg, fb, sr, sg, sb⟩ := sums_err 8 256 16 128 y u v (by decide) (by decide) (by decide) (by decide) hy hu hv
+  obtain ⟨c1, c2⟩ := int_bounds y 16 256 16 hy (by decide) (by decide)
+  obtain ⟨d1, d2⟩ := int_bounds u 128 256 2 hu (by decide) (by decide)
+  obtain ⟨e1, e2⟩ := int_bounds v 128 256 2 hv (by decide) (by decide)
+  have k16 : ((16 : Nat) : Rat) = 16 := rfl
+  have k2 : ((2 : Nat) : Rat) = 2 := rfl
+  have k256 : ((256 : Nat) : Rat) = 256 := rfl
+  rw [k16, k256] at c1 c2
+  rw [k2, k256] at d1 d2 e1 e2
+  rw [k256] at sr sg sb
+  have e : yuvTo 8 0 y u v = [toNatSat (fadd (yuvSums 16 128 y u v).1 half) 255,
+      toNatSat (fadd (yuvSums 16 128 y u v).2.1 half) 255, toNatSat (fadd (yuvSums 16 128 y u v).2.2 half) 255] := rfl
+  rw [e, spec_yuv8]
+  generalize (((y : Int) - (16 : Nat) : Int) : Rat) = c at *
+  generalize (((u : Int) - (128 : Nat) : Int) : Rat) = d at *
+  generalize (((v : Int) - (128 : Nat) : Int) : Rat) = e' at *
+  refine yuvAll_intro _ _ _ _ _ ?_ ?_ ?_
+  · show admissible 255 (clamp01 _) _ = true
+    rw [admissible_clamp]
+    exact n8_direct _ fr _ _ sr (by unfold idealR; grind) (by unfold idealR; grind) (by decide +kernel)
+  · show admissible 255 (clamp01 _) _ = true
+    rw [admissible_clamp]
+    exact n8_direct _ fg _ _ sg (by unfold idealG; grind) (by unfold idealG; grind) (by decide +kernel)
+  · show admissible 255 (clamp01 _) _ = true
+    rw [admissible_clamp]
+    exact n8_direct _ fb _ _ sb (by unfold idealB; grind) (by unfold idealB; grind) (by decide +kernel)
+
+/-! ### yuv10 -/
+
+theorem yuvF32_10 (y u v : Nat) : yuvF32 10 y u v =
+    [fclamp (fmul (yuvSums 64 512 y u v).1 k1023) 0 one, fclamp (fmul (yuvSums 64 512 y u v).2.1 k1023) 0 one,
+     fclamp (fmul (yuvSums 64 512 y u v).2.2 k1023) 0 one] := rfl
+
+theorem spec_yuv10 (y u v : Nat) : Spec.yuv 10 y u v =
+    (clamp01 (idealR (((y : Int) - (64 : Nat) : Int) : Rat) (((v : Int) - (512 : Nat) : Int) : Rat) * (1 / 1023)),
+     clamp01 (idealG (((y : Int) - (64 : Nat) : Int) : Rat) (((u : Int) - (512 : Nat) : Int) : Rat) (((v : Int) - (512 : Nat) : Int) : Rat) * (1 / 1023)),
+     clamp01 (idealB (((y : Int) - (64 : Nat) : Int) : Rat) (((u : Int) - (512 : Nat) : Int) : Rat) * (1 / 1023))) := by
+  rw [← div_eq_mul_one_div, ← div_eq_mul_one_div, ← div_eq_mul_one_div]; rfl
+
+/-- `yuv10::f32`, ALL inputs: every channel is finite and within `10·2^-24` of the ideal value (hence inside the
+oracle's tolerance `τ + 2^-24`) -/
+theorem yuv10_f32_ok (y u v : Nat) (hy : y < 1024) (hu : u < 1024) (hv : v < 1024) :
+    yuvAll (nearF32 (10 / 16777216)) (Spec.yuv 10 y u v) (yuvTo 10 2 y u v) = true ∧
+    yuvAll admissibleF32 (Spec.yuv 10 y u v) (yuvTo 10 2 y u v) = true := by
+  obtain ⟨h1, h2, h3⟩ := f32_err10 y u v hy hu hv
+  have e : yuvTo 10 2 y u v = yuvF32 10 y u v := rfl
+  rw [e, yuvF32_10, spec_yuv10]
+  exact ⟨yuvAll_intro _ _ _ _ _ (nearF32_of _ _ _ _ h1 Rat.le_refl) (nearF32_of _ _ _ _ h2 Rat.le_refl)
+    (nearF32_of _ _ _ _ h3 Rat.le_refl),
+    yuvAll_intro _ _ _ _ _ (admissibleF32_of _ _ h1) (admissibleF32_of _ _ h2) (admissibleF32_of _ _ h3)⟩
+
+/-- `yuv10::n16` = `f32` then `fp::n16`, ALL inputs: every code is admissible -/
+theorem yuv10_n16_ok (y u v : Nat) (hy : y < 1024) (hu : u < 1024) (hv : v < 1024) :
+    yuvAll (admissible 65535) (Spec.yuv 10 y u v) (yuvTo 10 1 y u v) = true := by
+  obtain ⟨h1, h2, h3⟩ := f32_err10 y u v hy hu hv
+  have e : yuvTo 10 1 y u v = (yuvF32 10 y u v).map fpn16 := rfl
+  rw [e, yuvF32_10, spec_yuv10]
+  exact yuvAll_intro _ _ _ _ _ (fpn16_adm _ _ _ h1 tol_ok) (fpn16_adm _ _ _ h2 tol_ok) (fpn16_adm _ _ _ h3 tol_ok)
+
+/-- `yuv10::n8` = `f32` then `fp::n8`, ALL inputs: every code is admissible -/
+theorem yuv10_n8_ok (y u v : Nat) (hy : y < 1024) (hu : u < 1024) (hv : v < 1024) :
+    yuvAll (admissible 255) (Spec.yuv 10 y u v) (yuvTo 10 0 y u v) = true := by
+  obtain ⟨h1, h2, h3⟩ := f32_err10 y u v hy hu hv
+  have e : yuvTo 10 0 y u v = (yuvF32 10 y u v).map fpn8 := rfl
+  rw [e, yuvF32_10, spec_yuv10]
+  exact yuvAll_intro _ _ _ _ _ (fpn8_adm _ _ _ h1 tol_ok) (fpn8_adm _ _ _ h2 tol_ok) (fpn8_adm _ _ _ h3 tol_ok)
+
+/-! ### yuv16 -/
+
+theorem yuvF32_16 (y u v : Nat) : yuvF32 16 y u v =
+    [fclamp (fmul (yuvSums 4096 32768 y u v).1 k65535) 0 one, fclamp (fmul (yuvSums 4096 32768 y u v).2.1 k65535) 0 one,
+     fclamp (fmul (yuvSums 4096 32768 y u v).2.2 k65535) 0 one] := rfl
+
+theorem spec_yuv16 (y u v : Nat) : Spec.yuv 16 y u v =
+    (clamp01 (idealR (((y : Int) - (4096 : Nat) : Int) : Rat) (((v : Int) - (32768 : Nat) : Int) : Rat) * (1 / 65535)),
+     clamp01 (idealG (((y : Int) - (4096 : Nat) : Int) : Rat) (((u : Int) - (32768 : Nat) : Int) : Rat) (((v : Int) - (32768 : Nat) : Int) : Rat) * (1 / 65535)),
+     clamp01 (idealB (((y : Int) - (4096 : Nat) : Int) : Rat) (((u : Int) - (32768 : Nat) : Int) : Rat) * (1 / 65535))) := by
+  rw [← div_eq_mul_one_div, ← div_eq_mul_one_div, ← div_eq_mul_one_div]; rfl
+
+/-- `yuv16::f32`, ALL inputs: every channel is finite and within `10·2^-24` of the ideal value (hence inside the
+oracle's tolerance `τ + 2^-24`) -/
+theorem yuv16_f32_ok (y u v : Nat) (hy : y < 65536) (hu : u < 65536) (hv : v < 65536) :
+    yuvAll (nearF32 (10 / 16777216)) (Spec.yuv 16 y u v) (yuvTo 16 2 y u v) = true ∧
+    yuvAll admissibleF32 (Spec.yuv 16 y u v) (yuvTo 16 2 y u v) = true := by
+  obtain ⟨h1, h2, h3⟩ := f32_err16 y u v hy hu hv
+  have e : yuvTo 16 2 y u v = yuvF32 16 y u v := rfl
+  rw [e, yuvF32_16, spec_yuv16]
+  exact ⟨yuvAll_intro _ _ _ _ _ (nearF32_of _ _ _ _ h1 Rat.le_refl) (nearF32_of _ _ _ _ h2 Rat.le_refl)
+    (nearF32_of _ _ _ _ h3 Rat.le_refl),
+    yuvAll_intro _ _ _ _ _ (admissibleF32_of _ _ h1) (admissibleF32_of _ _ h2) (admissibleF32_of _ _ h3)⟩
+
+/-- `yuv16::n16` = `f32` then `fp::n16`, ALL inputs: every code is admissible -/
+theorem yuv16_n16_ok (y u v : Nat) (hy : y < 65536) (hu : u < 65536) (hv : v < 65536) :
+    yuvAll (admissible 65535) (Spec.yuv 16 y u v) (yuvTo 16 1 y u v) = true := by
+  obtain ⟨h1, h2, h3⟩ := f32_err16 y u v hy hu hv
+  have e : yuvTo 16 1 y u v = (yuvF32 16 y u v).map fpn16 := rfl
+  rw [e, yuvF32_16, spec_yuv16]
+  exact yuvAll_intro _ _ _ _ _ (fpn16_adm _ _ _ h1 tol_ok) (fpn16_adm _ _ _ h2 tol_ok) (fpn16_adm _ _ _ h3 tol_ok)
+
+/-- `yuv16::n8` = `f32` then `fp::n8`, ALL inputs: every code is admissible -/
+theorem yuv16_n8_ok (y u v : Nat) (hy : y < 65536) (hu : u < 65536) (hv : v < 65536) :
+    yuvAll (admissible 255) (Spec.yuv 16 y u v) (yuvTo 16 0 y u v) = true := by
+  obtain ⟨h1, h2, h3⟩ := f32_err16 y u v hy hu hv
+  have e : yuvTo 16 0 y u v = (yuvF32 16 y u v).map fpn8 := rfl
+  rw [e, yuvF32_16, spec_yuv16]
+  exact yuvAll_intro _ _ _ _ _ (fpn8_adm _ _ _ h1 tol_ok) (fpn8_adm _ _ _ h2 tol_ok) (fpn8_adm _ _ _ h3 tol_ok)
+
 end Dds.YuvErr
